@@ -23,7 +23,9 @@ ToSet(s) == {s[i] : i \in 1..Len(s)}
 
 CfgOf(line) == line.cfg
 
-EvOf(e) == e     \* the Go event record already has every field the spec reads
+\* the Go event record already has every field the spec reads; whether a rejected
+\* token was well formed is known once the request has been built
+EvOf(line) == IF "wf" \in DOMAIN line.resp THEN [wf |-> line.resp.wf] @@ line.e ELSE [wf |-> FALSE] @@ line.e
 
 -----------------------------------------------------------------------------
 (* observed projection  ->  specification state *)
@@ -111,6 +113,8 @@ MailsObs(ms) == {[to |-> ToSet(m.to), kind |-> m.kind, tok |-> m.tok] : m \in To
 MailsSpec(ms) == ms
 SmsObsSet(ss) == {[phone |-> s.phone, code |-> s.code] : s \in ToSet(ss)}
 
+CallsObs(o) == IF "acalls" \in DOMAIN o THEN [i \in 1..Len(o.acalls) |-> [kind |-> o.acalls[i].kind, key |-> o.acalls[i].key]] ELSE <<>>
+
 RespDiff(r, o) ==
      (IF r.class = o.class THEN {} ELSE {<<"resp.class", "-", r.class, o.class>>})
   \cup (IF r.loc = o.loc THEN {} ELSE {<<"resp.loc", "-", r.loc, o.loc>>})
@@ -119,13 +123,15 @@ RespDiff(r, o) ==
   \cup (IF r.seenKeys = ToSet(o.seenKeys) THEN {} ELSE {<<"resp.seenKeys", "-", r.seenKeys, ToSet(o.seenKeys)>>})
   \cup (IF MailsSpec(r.mails) = MailsObs(o.mails) THEN {} ELSE {<<"resp.mails", "-", MailsSpec(r.mails), MailsObs(o.mails)>>})
   \cup (IF r.sms = SmsObsSet(o.sms) THEN {} ELSE {<<"resp.sms", "-", r.sms, SmsObsSet(o.sms)>>})
+  \* the backend call protocol (advisory: no property constrains the calls a successful request makes)
+  \cup (IF r.calls = CallsObs(o) THEN {} ELSE {<<"resp.calls", "-", r.calls, CallsObs(o)>>})
 
 RespFromObs(o) ==
   [class |-> o.class, loc |-> o.loc, ran |-> o.ran, seenUser |-> o.seenUser,
    seenKeys |-> ToSet(o.seenKeys),
    mails |-> MailsObs(o.mails),
    sms |-> SmsObsSet(o.sms), shown |-> {}, leaks |-> {x.where : x \in ToSet(o.leaks)},
-   calls |-> IF "calls" \in DOMAIN o THEN [i \in 1..Len(o.calls) |-> o.calls[i].kind] ELSE <<>>]
+   calls |-> CallsObs(o), faultHit |-> o.faultHit]
 
 -----------------------------------------------------------------------------
 
@@ -137,26 +143,28 @@ TraceInit ==
   /\ st = InitState([p \in Pids |-> NoUser])
   /\ resp = R0
 
-\* a step with an injected backend failure (C18): the specification has no
-\* fault model, so conformance is not compared; the fault clauses and the
-\* general clauses are evaluated on the observed step, with the fault-free
-\* specification step r as the reference
+\* a step with an injected backend failure (C18): the specification's fault
+\* model (the failing call has no effect, the handler stops the way the code at
+\* that call site does) says what the step should be; deviations from it are
+\* reported as "faultmodel" (advisory).  The verdict comes from the fault
+\* clauses and the general clauses, evaluated on the observed step with the
+\* fault-free specification step r0 as the reference for "reports success"
 StepLine(line) ==
-  LET e    == line.e
+  LET e    == EvOf(line)
       faulted == e.fault > 0 /\ line.resp.faultHit
       r    == Apply(st, cfg, e)
+      r0   == IF e.fault > 0 THEN Apply(st, cfg, [e EXCEPT !.fault = 0]) ELSE r
       obsLive == Live(FromObs(line.post, cfg, line.iss, {}, {}))
       S2   == FromObs(line.post, cfg, line.iss,
                       st.scPhone \cup {<<s.code, s.phone>> : s \in SmsObsSet(line.resp.sms)},
-                      IF faulted THEN st.spent \cup (Live(st) \ obsLive) ELSE r.st.spent)
-      d    == IF faulted THEN {}
-              ELSE Diff(r.st, cfg, line.post) \cup (IF e.act \in EnvActs THEN {} ELSE RespDiff(r.resp, line.resp))
+                      IF faulted THEN st.spent \cup Known(Live(st) \ obsLive) ELSE r.st.spent)
+      d    == Diff(r.st, cfg, line.post) \cup (IF e.act \in EnvActs THEN {} ELSE RespDiff(r.resp, line.resp))
       pv   == IF faulted
-              THEN FaultViolations(st, S2, cfg, e, RespFromObs(line.resp), r)
+              THEN FaultViolations(st, S2, cfg, e, RespFromObs(line.resp), r0)
                    \cup (PropViolations(st, S2, cfg, e, RespFromObs(line.resp)) \cap FaultTolerantClauses)
               ELSE PropViolations(st, S2, cfg, e, RespFromObs(line.resp))
       add1 == IF d = {} THEN <<>>
-              ELSE <<[kind |-> "mismatch", l |-> l, act |-> e.act,
+              ELSE <<[kind |-> IF e.fault > 0 THEN "faultmodel" ELSE "mismatch", l |-> l, act |-> e.act,
                       fields |-> {x[1] : x \in d}, detail |-> ToString(d)]>>
       add2 == IF pv = {} THEN <<>>
               ELSE <<[kind |-> "property", l |-> l, act |-> e.act,
